@@ -15,6 +15,7 @@ RACE = {"logger": True}
 STAGE = "logger"
 OBJ_DEV = "C18/obj-cid-dropped"
 MAX_REPRO = 5
+HEAP = ["-Xmx3g"]      # the machine is shared: every TLC run gets a heap cap
 
 
 def _gorace(d):
@@ -24,7 +25,7 @@ def _gorace(d):
 def _validate(ctx, trace_path, cfg, name):
     """Run Trace_LoggerCid on a trace file: (consumed, total). Anything but a verdict is Broken."""
     info = ctx.tlc("logger", "Trace_LoggerCid", cfg, name=name, files={"trace.ndjson": trace_path},
-                   workers=1, count_states=False, timeout=1500)
+                   workers=1, count_states=False, timeout=1500, jopts=HEAP)
     m = None
     for line in open(info["log"]):
         m = re.match(r'<<"TRACE", (\d+), (\d+)>>', line) or m
@@ -133,19 +134,24 @@ def _self_test(ctx, trace_path, cfg):
 def run(ctx):
     quick = ctx.tier == "quick"
     ctx.rule = ("MC: every interleaving of the specification's actions (New under the lock, Alias, Log = one write that only reads its operands) "
-                "in four factored families - ids (3 goroutines x 2 contexts, new or alias of any context made so far), lines (3 goroutines x 2 logging "
-                "calls, routed and discarded level, nil and Cid() object), mixed (%s) and operands (%s). TRACE: a case is one recorded execution of "
+                "in %s factored families - ids (3 goroutines x 2 contexts, new or alias of any context made so far), lines (3 goroutines x 2 logging "
+                "calls, routed and discarded level, nil and Cid() object), mixed (%s), operands (%s), %svalues (1 goroutine x 2 calls, all 12 message shapes x both forms x all context kinds x 6 "
+                "classes of Cid()). TRACE: a case is one recorded execution of "
                 "the real package (the main goroutine alone first, then N goroutines released together, each making `ops` seeded random calls of "
                 "WithContext / AliasContext / I,If,T,Tf,W,Wf,E,Ef and Logger.Println/Printf of every level with nil, Cid() object, context with id, "
-                "context without id; operands written out in the call, or a window back[:n] (n = 1..cap) of the goroutine's own slice used again call "
+                "context without id; Cid() of every class in the descriptor (0, -1, negative, 32/64-bit extremes, small, the library's range); "
+                "rendered message of every shape in the descriptor (empty, interior / trailing newlines, CR, CRLF, > 4 KiB, > 64 KiB; the main goroutine "
+                "logs every shape and every id class through both call forms); operands written out in the call, or a window back[:n] (n = 1..cap) of the goroutine's own slice used again call "
                 "after call, or of a slice all goroutines pass read-only at the same time, capacities from the descriptor) under the race detector, "
-                "with its run descriptor (goroutines x calls x action mix x operand mix x capacities) enumerated by TLC; the recording is accepted "
+                "with its run descriptor (goroutines x calls x action mix x operand mix x capacities x message shapes x id classes) enumerated by TLC; the recording is accepted "
                 "by Trace_LoggerCid iff every new id is fresh in the process, every alias carries its source's id, every logging call produced "
-                "exactly one Write that is one whole line with the right label, '[pid][cid]' / '[pid]' and the message its operands - as the "
+                "exactly one Write - the unit is the Write call, not the text line - that holds the right label, '[pid][cid]' / '[pid]' and the message its operands - as the "
                 "application filled them - format to, and left the caller's slice up to its capacity as it was"
-                % ("3 goroutines x 1 context x 1 call, all kinds" if quick else "2 goroutines x 2 contexts x 2 calls, all kinds",
+                % ("five" if quick else "six",
+                   "3 goroutines x 1 context x 1 call, all kinds" if quick else "2 goroutines x 2 contexts x 2 calls, all kinds",
                    "2 goroutines x 2 calls, windows 0..2 of one shared slice of capacity 2, prefixed and unprefixed context" if quick else
-                   "2 goroutines x 1 context x 2 calls, windows 1..3 of one shared slice of capacity 3, library-made and id-less context"))
+                   "2 goroutines x 1 context x 2 calls, windows 1..3 of one shared slice of capacity 3, library-made and id-less context",
+                   "" if quick else "messages (2 goroutines x 2 calls, println/printf form, plain or interior-newline message, Cid() 0 and -1), "))
     ctx.exhaustive = False
     ctx.assumptions += [
         "schedules of the real code are sampled by the Go scheduler (16 cores, GOMAXPROCS default), not enumerated; exhaustiveness holds for the specification only",
@@ -153,7 +159,10 @@ def run(ctx):
         "and parsing '[pid][cid]' (both must agree)",
         "Info is routed to ioutil.Discard by Switch: an Info call is accepted with no write at the writer (or one correct line)",
         "for a context.Context without id the property fixes no prefix: label, wholeness and message are judged, the prefix is not",
-        "one or two spaces after the bracketed prefix are both accepted; timestamps are checked for shape only; messages contain no newline",
+        "one or two spaces after the bracketed prefix are both accepted (none is demanded before an empty message); timestamps are checked for "
+        "shape only; newlines at the END of a message are not compared (the write must end in a newline), everything else of it is, byte for byte",
+        "an empty message carries no token: only the main goroutine logs one, while it is alone (the writes that arrive during its call are its)",
+        "a Cid() outside 1..2^31-1 is written into the trace as a code (TLC integers are 32-bit); the replayer compares the printed decimal text",
         "colour escape codes the library prints to os.Stdout for Warn/Error when the writer is no io.Closer do not reach the writer and are not judged",
         "goroutines log and alias with their own contexts and with contexts made by the main goroutine before they start, not with each other's",
         "a println-style call whose operands all come from a slice shared by the goroutines has no token of its own: its write is the one with "
@@ -174,26 +183,33 @@ def run(ctx):
         ctx.apalache("proofs", "CidCounter", "apalache_atomic.cfg", "Init", "IndInv", 0)
         ctx.apalache("proofs", "CidCounter", "apalache_atomic.cfg", "IndInit", "IndInv", 1)
         ctx.apalache("proofs", "CidCounter", "apalache_nonatomic.cfg", "IndInit", "IndInv", 1, expect_error=True)
-    ctx.tlc("logger", "LoggerCid", "MC_LoggerCid_ids.cfg", coverage=cov)
-    ctx.tlc("logger", "LoggerCid", "MC_LoggerCid_lines.cfg", coverage=cov)
-    ctx.tlc("logger", "LoggerCid", "MC_LoggerCid.quick.cfg", coverage=cov)
-    ctx.tlc("logger", "LoggerCid", "MC_LoggerCid_operands.quick.cfg", coverage=cov)
+    ctx.tlc("logger", "LoggerCid", "MC_LoggerCid_ids.cfg", coverage=cov, jopts=HEAP)
+    ctx.tlc("logger", "LoggerCid", "MC_LoggerCid_lines.cfg", coverage=cov, jopts=HEAP)
+    ctx.tlc("logger", "LoggerCid", "MC_LoggerCid.quick.cfg", coverage=cov, jopts=HEAP)
+    ctx.tlc("logger", "LoggerCid", "MC_LoggerCid_operands.quick.cfg", coverage=cov, jopts=HEAP)
+    ctx.tlc("logger", "LoggerCid", "MC_LoggerCid_values.cfg", coverage=cov, jopts=HEAP)
     if not quick:
-        ctx.tlc("logger", "LoggerCid", "MC_LoggerCid.thorough.cfg", timeout=800)
-        ctx.tlc("logger", "LoggerCid", "MC_LoggerCid_operands.thorough.cfg", timeout=800)
+        ctx.tlc("logger", "LoggerCid", "MC_LoggerCid.thorough.cfg", timeout=800, jopts=HEAP)
+        ctx.tlc("logger", "LoggerCid", "MC_LoggerCid_msgs.cfg", coverage=cov, jopts=HEAP)
+        ctx.tlc("logger", "LoggerCid", "MC_LoggerCid_operands.thorough.cfg", timeout=800, jopts=HEAP)
     # non-vacuity: each named deviation is caught by the invariant that states the clause it breaks
-    ctx.tlc("logger", "LoggerCid", "MC_LoggerCid_nonatomic.cfg", expect_violation="Unique", count_states=False, workers=1)
-    ctx.tlc("logger", "LoggerCid", "MC_LoggerCid_splitline.cfg", expect_violation="WholeLines", count_states=False, workers=1)
-    ctx.tlc("logger", "LoggerCid", "MC_LoggerCid_objcid.cfg", expect_violation="WholeLines", count_states=False, workers=1)
+    ctx.tlc("logger", "LoggerCid", "MC_LoggerCid_nonatomic.cfg", expect_violation="Unique", count_states=False, workers=1, jopts=HEAP)
+    ctx.tlc("logger", "LoggerCid", "MC_LoggerCid_splitline.cfg", expect_violation="WholeLines", count_states=False, workers=1, jopts=HEAP)
+    ctx.tlc("logger", "LoggerCid", "MC_LoggerCid_objcid.cfg", expect_violation="WholeLines", count_states=False, workers=1, jopts=HEAP)
     # C18/prefix-inserted-in-place: the caller's operand slice is changed by the first call (OperandsUntouched), and the
     # line of the NEXT call with that slice is wrong at the writer (WholeLines, when OperandsUntouched is not looked at)
-    ctx.tlc("logger", "LoggerCid", "MC_LoggerCid_inplace.cfg", expect_violation="OperandsUntouched", count_states=False, workers=1)
+    ctx.tlc("logger", "LoggerCid", "MC_LoggerCid_inplace.cfg", expect_violation="OperandsUntouched", count_states=False, workers=1, jopts=HEAP)
+    # C18/split-at-newline: a write that is not the call's whole line (WholeLines); with two goroutines another line
+    # lands between the pieces (Adjacent). C18/obj-cid-unsigned: the cid of a println-style line is not the object's
+    ctx.tlc("logger", "LoggerCid", "MC_LoggerCid_msgsplit.cfg", expect_violation="WholeLines", count_states=False, workers=1, jopts=HEAP)
+    ctx.tlc("logger", "LoggerCid", "MC_LoggerCid_unsignedcid.cfg", expect_violation="WholeLines", count_states=False, workers=1, jopts=HEAP)
     if not quick:
-        ctx.tlc("logger", "LoggerCid", "MC_LoggerCid_inplace_line.cfg", expect_violation="WholeLines", count_states=False, workers=1)
+        ctx.tlc("logger", "LoggerCid", "MC_LoggerCid_msgsplit_between.cfg", expect_violation="Adjacent", count_states=False, workers=1, jopts=HEAP)
+        ctx.tlc("logger", "LoggerCid", "MC_LoggerCid_inplace_line.cfg", expect_violation="WholeLines", count_states=False, workers=1, jopts=HEAP)
 
     # GEN: run descriptors
     cases = os.path.join(ctx.out, "cases.ndjson")
-    ctx.tlc("logger", "Gen_LoggerCid", "Gen_LoggerCid.%s.cfg" % ctx.tier, cases_to=cases, count_states=False, workers=1)
+    ctx.tlc("logger", "Gen_LoggerCid", "Gen_LoggerCid.%s.cfg" % ctx.tier, cases_to=cases, count_states=False, workers=1, jopts=HEAP)
     descs = ctx.load_cases(cases)
     if not descs or any(json.loads(d)["n"] > 64 for d in descs):
         raise vlib.Broken("run descriptors missing or with more goroutines than Trace_LoggerCid.cfg allows (N = 64)")
